@@ -569,6 +569,69 @@ func runC16Mutations(tw *TraceWriter, id0 int) int {
 			tw.Distinct("nontrivial_cases", fmt.Sprint("mutation", si, ext))
 		}
 	}
+	// a value (or key) that is a Null() placeholder when the Dict is built and first rendered, and is filled afterwards:
+	// the pair is omitted first and present - once, in key order - afterwards; Dict literal and DictFunc alike
+	for variant := 0; variant < 4; variant++ {
+		n++
+		id := id0 + n
+		tw.Traces++
+		viaFunc := variant%2 == 1
+		keyPlaceholder := variant >= 2
+		mk := func() (*jen.File, *jen.Statement) {
+			ph := jen.Null()
+			fill := func(d jen.Dict) {
+				d[jen.Id("a")] = jen.Lit(701)
+				if keyPlaceholder {
+					d[ph] = jen.Lit(702)
+				} else {
+					d[jen.Id("b")] = ph
+				}
+				d[jen.Id("c")] = jen.Lit(703)
+			}
+			var d jen.Dict
+			if viaFunc {
+				d = jen.DictFunc(fill)
+			} else {
+				d = jen.Dict{}
+				fill(d)
+			}
+			f := jen.NewFile("main")
+			f.Var().Id("_").Op("=").Id("T").Values(d)
+			return f, ph
+		}
+		fillPh := func(ph *jen.Statement) {
+			if keyPlaceholder {
+				ph.Id("b")
+			} else {
+				ph.Lit(702)
+			}
+		}
+		f, ph := mk()
+		renderFile(f) // the placeholder is still empty
+		safely(func() ([]byte, error) { return []byte(fmt.Sprintf("%#v", f)), nil })
+		fillPh(ph)
+		second := renderFile(f)
+		ff, ph2 := mk()
+		fillPh(ph2)
+		fresh := renderFile(ff)
+		rawf, ph3 := mk()
+		fillPh(ph3)
+		rawf.NoFormat = true
+		rv := renderFile(rawf)
+		pairs, keyTexts, multiline, parsed := dictProjection(second.out)
+		fpairs, _, _, _ := dictProjection(fresh.out)
+		bkey, bval := stm(idn("b")), stm(&Node{K: "tok", T: "null"}, lit("702"))
+		if keyPlaceholder {
+			bkey, bval = stm(&Node{K: "tok", T: "null"}, idn("b")), stm(lit("702"))
+		}
+		items := []*Node{{K: "pair", Items: []*Node{stm(idn("a")), stm(lit("701"))}}, {K: "pair", Items: []*Node{bkey, bval}}, {K: "pair", Items: []*Node{stm(idn("c")), stm(lit("703"))}}}
+		otree := stm(kwn("var"), idn("_"), opn("="), idn("T"), grp("values", &Node{K: "dict", Items: items, Order: []int{1, 2, 3}}))
+		tw.Emit(Rec{"ev": "c16", "id": id, "alias": "", "pairs": [][]string{{"placeholder", fmt.Sprint(variant)}}, "live": 3, "known": "",
+			"otree": otree, "order1": []int{},
+			"rv": resRec(rv, second), "expected": fpairs, "got": pairs, "parsed": parsed,
+			"sorted": sort.StringsAreSorted(keyTexts), "multiline": multiline, "nhash": 1, "norders": 1})
+		tw.Distinct("nontrivial_cases", fmt.Sprint("placeholder", variant))
+	}
 	return n
 }
 
